@@ -261,7 +261,7 @@ def real_run_families(ctx, n_runs):
     """Traces of the test cases of suites generated by real short pynguin runs."""
     import pipeline
 
-    suts = [p for p in ((vlib.VERIF / "corpus" / "sut" / n) for n in ("tri.py", "bank.py", "text.py")) if p.exists()]
+    suts = sorted((vlib.VERIF / "corpus" / "C35_sut").glob("*.py"))
     algos = ["MOSA", "WHOLE_SUITE", "RANDOM", "DYNAMOSA"]
     jobs = []
     for k in range(n_runs):
